@@ -317,6 +317,8 @@ enum Job {
     Paired(Vec<f64>, Vec<f64>, bool),
     Lengths(usize, usize),
     Unp(Vec<f64>, Vec<f64>, bool, bool),
+    /// one confidence asked of every construction in turn (on one thread)
+    UnpChain(Kind, f64, bool),
 }
 
 fn seqs(alpha: &[f64], lo: usize, hi: usize) -> Vec<Vec<f64>> {
@@ -418,6 +420,14 @@ fn run(tier: Tier) -> Sink {
         jobs.push(Job::Unp(two_point(na, 1.0, 1.0), two_point(nb, -0.5, r), false, false));
         jobs.push(Job::Unp(two_point(na, 1.0, 1.0), two_point(nb, -0.5, r), true, false));
     }
+    // confidence-major order: one confidence, then every construction (all with different, mostly
+    // fractional effective dofs, many sharing their integer part) one after the other on one
+    // thread - an interval is a function of (confidence, data) alone, whatever was asked before
+    for &(k, l) in &confs_q {
+        for f32_ in [false, true] {
+            jobs.push(Job::UnpChain(k, l, f32_));
+        }
+    }
     for la in 0..=5 {
         for lb in 0..=5 {
             jobs.push(Job::Lengths(la, lb));
@@ -435,6 +445,20 @@ fn run(tier: Tier) -> Sink {
         Job::Lengths(la, lb) => {
             judge_lengths::<f64>(*la, *lb, s);
             judge_lengths::<f32>(*la, *lb, s);
+        }
+        Job::UnpChain(k, l, f32_) => {
+            for na in 2..=12 {
+                for nb in 2..=12 {
+                    for r in [0.0625, 0.25, 1.0, 4.0, 16.0, 100.0] {
+                        let (a, b) = (two_point(na, 1.0, 1.0), two_point(nb, -0.5, r));
+                        if *f32_ {
+                            judge_unpaired::<f32>(&a, &b, &[(*k, *l)], false, s)
+                        } else {
+                            judge_unpaired::<f64>(&a, &b, &[(*k, *l)], false, s)
+                        }
+                    }
+                }
+            }
         }
         Job::Unp(a, b, f32_, full) => {
             let cf = if a.len() + b.len() >= 7 { &confs_q } else { &confs };
